@@ -1,6 +1,7 @@
 from contextlib import AbstractContextManager, nullcontext
 from io import TextIOBase, IOBase, TextIOWrapper, BufferedIOBase
 from pathlib import Path
+import os
 import typing as t
 
 from typing_extensions import TypeAlias
@@ -174,8 +175,10 @@ def open_file(f: FileOrPath,
       newline: Newline mode file should be opened in
       encoding: Encoding file should be opened in
     """
-    if not isinstance(f, (IOBase, t.BinaryIO, t.TextIO)):
+    if isinstance(f, (str, bytes, os.PathLike)):
         return open(f, mode, newline=newline, encoding=encoding)
+    # anything else is a stream (not all of them derive from IOBase: `tempfile.NamedTemporaryFile`
+    # and `codecs.open` return delegating wrappers)
 
     if isinstance(f, TextIOWrapper):
         f.reconfigure(newline=newline, encoding=encoding)
